@@ -57,7 +57,7 @@ func runRemoteIP(_ *testing.T, c sdpCase) error {
 		return nil
 	}
 	var desc sdp.SessionDescription
-	if desc.Unmarshal([]byte(c.Text)) != nil {
+	if safeUnmarshal(&desc, c.Text) != nil {
 		return nil // not parseable as SDP: only the locality rule above applies
 	}
 	var want net.IP
@@ -86,6 +86,15 @@ func runRemoteIP(_ *testing.T, c sdpCase) error {
 	return nil
 }
 
+func safeUnmarshal(d *sdp.SessionDescription, text string) (err error) {
+	defer func() {
+		if r := recover(); r != nil {
+			err = fmt.Errorf("parser panicked: %v", r)
+		}
+	}()
+	return d.Unmarshal([]byte(text))
+}
+
 func clip(s string) string {
 	if len(s) > 400 {
 		return s[:400] + "…"
@@ -99,7 +108,7 @@ func init() { vstat.Register(uRemoteIP, runRemoteIP) }
 
 func genSDPText(t *rapid.T) (string, bool) {
 	if rapid.IntRange(0, 5).Draw(t, "arbitrary") == 0 {
-		return rapid.OneOf(rapid.String(), rapid.SampledFrom([]string{"", "v=0", "c=IN IP4 8.8.8.8\n", "c=IN IP4 10.0.0.1\r\n", "c=IN IP6 ::1\n", "c=IN IP4 1.2.3.4/127/3 \n", "c=IN IP4 999.1.1.1\n", "c=IN IP6 2001:db8::1/64\r\n", "a=candidate:1 1 udp 1 8.8.8.8 1 typ host\r\n", "c=IN IP4 ...\n", "c=IN IP6 :::::\n"})).Draw(t, "text"), false
+		return rapid.OneOf(rapid.String(), rapid.SampledFrom([]string{"", "v=0", "v= o=0 0 0 IN IP4\ns=\nt=\nr= ", "c=IN IP4 8.8.8.8\n", "c=IN IP4 10.0.0.1\r\n", "c=IN IP6 ::1\n", "c=IN IP4 1.2.3.4/127/3 \n", "c=IN IP4 999.1.1.1\n", "c=IN IP6 2001:db8::1/64\r\n", "a=candidate:1 1 udp 1 8.8.8.8 1 typ host\r\n", "c=IN IP4 ...\n", "c=IN IP6 :::::\n"})).Draw(t, "text"), false
 	}
 	var b strings.Builder
 	b.WriteString("v=0\r\no=- 4358805017720277108 1658000000 IN IP4 0.0.0.0\r\ns=-\r\n")
@@ -107,6 +116,10 @@ func genSDPText(t *rapid.T) (string, bool) {
 		b.WriteString("c=IN IP" + conn(t) + "\r\n")
 	}
 	b.WriteString("t=0 0\r\n")
+	if rapid.IntRange(0, 5).Draw(t, "oddline") == 0 {
+		// lines pion has separate little parsers for
+		b.WriteString(rapid.SampledFrom([]string{"r= ", "r=", "r=7d 1h 0 25h", "r=1 2", "r=x y z", "z=", "z=0 0", "z=1 1h 2", "k=", "k=prompt", "b=", "b=AS:1", "a=", "a=x:"}).Draw(t, "odd") + "\r\n")
+	}
 	nm := rapid.IntRange(0, 2).Draw(t, "nmedia")
 	for i := 0; i < nm; i++ {
 		b.WriteString("m=application 9 UDP/DTLS/SCTP webrtc-datachannel\r\n")
